@@ -47,7 +47,8 @@ fn times_for(ts: &[Timing]) -> Vec<f32> {
     let dmax = ts.iter().map(|t| t.delay).fold(0.0, f32::max);
     let t = ts[0];
     let far = ts.iter().filter_map(|t| t.total()).fold(0.0f64, f64::max) as f32 + 1.0;
-    vec![dmin / 2.0, if dmax > dmin { (dmin + dmax) / 2.0 } else { t.delay + 0.3125 * t.cycle }, dmax + 0.8125 * t.cycle, dmax + 1.3125 * t.cycle, far.max(dmax + 2.6875 * t.cycle)]
+    // the last-but-one time lands exactly on the 50% keyframe position of the first pass
+    vec![dmin / 2.0, if dmax > dmin { (dmin + dmax) / 2.0 } else { t.delay + 0.3125 * t.cycle }, dmax + 0.8125 * t.cycle, dmax + 1.3125 * t.cycle, t.delay + if t.reverse { 0.25 } else { 0.5 } * t.cycle, far.max(dmax + 2.6875 * t.cycle)]
 }
 
 type Meta = (u32, u32, u32, Repeat);
@@ -217,7 +218,7 @@ pub fn run(run: Run) -> ! {
             objects.push(vec![TlSpec { kfs: a.clone(), default_easing: 0, timing: thetas[t1] }, TlSpec { kfs: b.clone(), default_easing: 3, timing: thetas[t2] }]);
         }
     }
-    let ops = alphabet(5);
+    let ops = alphabet(6);
     let mut items = vec![];
     for oi in 0..objects.len() {
         for fo in 0..ops.len() {
@@ -260,7 +261,7 @@ pub fn run(run: Run) -> ! {
     cov.insert("traces_validated_against_impl".into(), json!(acc.sequences));
     cov.insert("evaluations".into(), json!(acc.updates));
     cov.insert("distinct_nontrivial".into(), json!(acc.sequences));
-    cov.insert("rule".into(), json!(format!("{} plain timelines ({} keyframe lists from T(2),T(3) x 6 timings) and {} merged timelines (two components with different delays/timings); objects X and Y (clone slot); alphabet of {} operations: update(obj, target in {{fresh sentinel, dirty, previous result}}, 5 times spanning before-start / between the component delays / first pass / second pass-or-after-end / far), start_with(obj, 3 values), Y=X.clone(), X=Y.clone(); ALL sequences of length {} (stateless DFS, state = history); oracle: every update equals the memo entry (latest start value of that object, time) computed on a pristine twin into a fresh target, untouched fields keep the input's bits; delay/cycle/duration/repeat never change; non-trivial = complete sequences", n_single, kfss.len(), objects.len() - n_single, ops.len(), depth)));
+    cov.insert("rule".into(), json!(format!("{} plain timelines ({} keyframe lists from T(2),T(3) x 6 timings) and {} merged timelines (two components with different delays/timings); objects X and Y (clone slot); alphabet of {} operations: update(obj, target in {{fresh sentinel, dirty, previous result}}, 6 times spanning before-start / between the component delays / first pass / second pass-or-after-end / exactly on the 50% keyframe position / far), start_with(obj, 3 values), Y=X.clone(), X=Y.clone(); ALL sequences of length {} (stateless DFS, state = history); oracle: every update equals the memo entry (latest start value of that object, time) computed on a pristine twin into a fresh target, untouched fields keep the input's bits; delay/cycle/duration/repeat never change; non-trivial = complete sequences", n_single, kfss.len(), objects.len() - n_single, ops.len(), depth)));
     cov.insert("exhaustive".into(), json!(true));
     cov.insert("depth".into(), json!(depth));
     cov.insert("distinct_update_results_capped".into(), json!(acc.distinct_results.len()));
@@ -274,7 +275,7 @@ pub fn replay(case: &Value) -> bool {
     let merged = case["object"]["merged"].as_bool().unwrap_or(false);
     let hist_names: Vec<String> = case["history"].as_array().map(|a| a.iter().map(|x| x.as_str().unwrap_or("").to_string()).collect()).unwrap_or_default();
     let tms = times_for(&specs.iter().map(|s| s.timing).collect::<Vec<_>>());
-    let ops = alphabet(5);
+    let ops = alphabet(6);
     let mut hist: Vec<Op> = vec![];
     for n in &hist_names {
         match ops.iter().find(|o| &opname(o, &tms) == n) {
